@@ -89,6 +89,14 @@ m('c04-r2-rescale', 'C04', 'C04-R2', 'taiko', (
 m('c04-r3-lossy-into', 'C04', 'C04-R3', 'MapOrAttrs', (
     'src/util/map_or_attrs.rs', "                    Self::Attrs(attrs.difficulty)", "                    Self::Attrs({ let mut d = attrs.difficulty; d.stars += 0.0; d })"))
 
+m('c02-r5-truncated-lookahead', 'C02', 'C02-R5', 'osu:lookahead', (
+    'src/osu/difficulty/mod.rs', "        let osu_object_iter = osu_objects.iter_mut().map(Pin::new);",
+    "        let osu_object_iter = osu_objects.iter_mut().take(take).map(Pin::new);"))
+m('c04-r3-map-early-convert', 'C04', 'C04-R3', 'map-into', (
+    'src/any/performance/into.rs',
+    "            impl<'a> IntoModePerformance<'a, mode!()> for Beatmap {\n                fn into_performance(self) -> <mode!() as IGameMode>::Performance<'a> {\n",
+    "            impl<'a> IntoModePerformance<'a, mode!()> for Beatmap {\n                fn into_performance(mut self) -> <mode!() as IGameMode>::Performance<'a> {\n                    let _ = self.convert_mut(GameMode::$mode, &crate::GameMods::DEFAULT);\n"))
+
 # ---- C05 / C10-R3 -------------------------------------------------------------------------------------------
 m('c05-r1-no-guard', 'C05', 'C05-R1', 'BananaShower::new:time', (
     'src/catch/object/banana_shower.rs',
